@@ -16,6 +16,9 @@
 #if defined(HAVE_AVX2INTRIN_H) && defined(HAVE_EMMINTRIN_H) && \
     defined(HAVE_TMMINTRIN_H) && defined(HAVE_SMMINTRIN_H)
 # include "xmm6int/salsa20_xmm6int-avx2.h"
+#ifdef SODIUM_VERIF
+# include "private/verif.h"
+#endif
 #endif
 
 #if HAVE_AMD64_ASM
@@ -79,20 +82,32 @@ _crypto_stream_salsa20_pick_best_implementation(void)
 {
 #ifdef HAVE_AMD64_ASM
     implementation = &crypto_stream_salsa20_xmm6_implementation;
+#ifdef SODIUM_VERIF
+    SODIUM_VERIF_EVENT("pick", "salsa20", "xmm6");
+#endif
 #else
     implementation = &crypto_stream_salsa20_ref_implementation;
+#ifdef SODIUM_VERIF
+    SODIUM_VERIF_EVENT("pick", "salsa20", "ref");
+#endif
 #endif
 
 #if defined(HAVE_AVX2INTRIN_H) && defined(HAVE_EMMINTRIN_H) && \
     defined(HAVE_TMMINTRIN_H) && defined(HAVE_SMMINTRIN_H)
     if (sodium_runtime_has_avx2()) {
         implementation = &crypto_stream_salsa20_xmm6int_avx2_implementation;
+#ifdef SODIUM_VERIF
+        SODIUM_VERIF_EVENT("pick", "salsa20", "avx2");
+#endif
         return 0;
     }
 #endif
 #if !defined(HAVE_AMD64_ASM) && defined(HAVE_EMMINTRIN_H)
     if (sodium_runtime_has_sse2()) {
         implementation = &crypto_stream_salsa20_xmm6int_sse2_implementation;
+#ifdef SODIUM_VERIF
+        SODIUM_VERIF_EVENT("pick", "salsa20", "sse2");
+#endif
         return 0;
     }
 #endif
